@@ -1,6 +1,7 @@
 CONSTANTS
   LayoutNames = {"bolt_req"}
   Defects = {}
+  Dense = FALSE
   Emit = FALSE
 SPECIFICATION TraceSpec
 POSTCONDITION Accepted
